@@ -25,10 +25,12 @@ type fieldAssumption struct {
 }
 
 var fieldAssumptions []*fieldAssumption
+var separations []*fieldAssumption
 var assumptionUsed = map[string]bool{}
 
 func (c *Ctx) loadAssumptions() {
 	fieldAssumptions = nil
+	separations = nil
 	assumptionUsed = map[string]bool{}
 	data, err := os.ReadFile(filepath.Join(verifDir, "reviewed", "assumptions.json"))
 	if err != nil {
@@ -39,15 +41,24 @@ func (c *Ctx) loadAssumptions() {
 		abort("reviewed/assumptions.json: %v", err)
 	}
 	for _, a := range as {
-		if len(a.Struct) != 2 || a.Fact != "nonneg" || a.Reason == "" {
+		if len(a.Struct) != 2 || (a.Fact != "nonneg" && a.Fact != "separate") || a.Reason == "" {
 			abort("reviewed/assumptions.json: malformed entry %s", a.ID)
+		}
+		if a.Fact == "separate" {
+			// instance separation used by the class-invariant verification (classinv.go)
+			tn := c.typeObj(a.Struct[0], a.Struct[1])
+			a.key = types.TypeString(tn.Type(), nil) + "." + c.fld(a.FieldRole)
+			separations = append(separations, a)
+			continue
 		}
 		tn := c.typeObj(a.Struct[0], a.Struct[1])
 		a.key = types.TypeString(tn.Type(), nil) + "." + c.fld(a.FieldRole)
 		fieldAssumptions = append(fieldAssumptions, a)
 	}
 	for _, a := range fieldAssumptions {
-		c.fieldNonneg(a)
+		if a.Fact == "nonneg" {
+			c.fieldNonneg(a)
+		}
 	}
 }
 
